@@ -559,64 +559,30 @@ theorem fileMover_safe {L} {s : RealState} (hs : Safe L s) (cwd : APath) (src ds
   unfold fileMover
   split
   · exact hs
-  · rename_i hnorm
-    simp only [Bool.not_false, Bool.true_and]
+  · simp only [Bool.not_false, Bool.true_and]
     split
     · exact hs
-    · rename_i hg
-      have hg' : lexistsRel s.fs cwd dst = false := by simpa using hg
-      obtain ⟨hs', hent⟩ := mkdirP_safe hs cwd (parentOf dst)
+    · obtain ⟨hs', _⟩ := mkdirP_safe hs cwd (parentOf dst)
       cases hm : mkdirP s cwd (parentOf dst) with
       | mk s' err =>
-        rw [hm] at hs' hent
-        simp only at hs' hent
+        rw [hm] at hs'
+        simp only at hs'
         cases err with
         | some e => simp only; exact hs'
         | none =>
           simp only
-          unfold shutilMove
           split
-          · -- into an existing directory: guarded by its own existence test
-            simp only
+          · exact hs'
+          · rename_i hg2
+            have hg2' : lexistsRel s'.fs cwd dst = false := by simpa using hg2
+            unfold shutilMove
             split
-            · exact hs'
-            · rename_i hin
-              exact renameRel_safe hs' cwd src _ (fun b hb => find_none_of_not_lexistsRel (by simpa using hin) hb)
-          · rename_i hnd
-            apply renameRel_safe hs' cwd src dst
-            intro b hb
-            -- b is not a directory now; had it existed before, the guard would have seen it
-            have hdd : ∀ c ∈ dst.parts, c ≠ dotdot := by
-              intro c hc e0
-              apply hnorm
-              simp only [List.any_eq_true, decide_eq_true_eq]
-              exact ⟨c, hc, e0⟩
-            have hbeq : b = (if dst.abs then [] else cwd) ++ dst.parts := by
-              unfold walkPath at hb
-              exact walk_result_normalized _ _ _ hdd hb
-            cases hf : s'.fs.find b with
-            | none => rfl
-            | some eb =>
-              exfalso
-              have hmem := find_some_mem hf
-              rcases hent eb hmem.1 with hold | hdir
-              · -- the entry already existed when the guard ran
-                have hwalk : walkPath s.fs cwd dst = .ok b := by
-                  unfold walkPath
-                  by_cases hp0 : dst.parts = []
-                  · rw [hp0] at hbeq ⊢; simp [walk, hbeq]
-                  · rw [hbeq]
-                    exact walk_ok_of_entry hs.1 hold dst.parts _ hp0 hdd (by rw [hmem.2, hbeq])
-                unfold lexistsRel at hg'
-                rw [hwalk] at hg'
-                simp only at hg'
-                have : lexists s.fs b = true := (lexists_iff b).mpr (Or.inr ⟨eb, hold, hmem.2⟩)
-                rw [this] at hg'; simp at hg'
-              · -- a directory created by mkdir -p: then the other branch would have been taken
-                apply hnd
-                unfold isDirRel
-                rw [hb]
-                simp only
-                exact (isDirAt_iff hs'.1.1 b).mpr (Or.inr ⟨eb, hmem.1, hmem.2, hdir⟩)
+            · -- into an existing directory: guarded by its own existence test
+              simp only
+              split
+              · exact hs'
+              · rename_i hin
+                exact renameRel_safe hs' cwd src _ (fun b hb => find_none_of_not_lexistsRel (by simpa using hin) hb)
+            · exact renameRel_safe hs' cwd src dst (fun b hb => find_none_of_not_lexistsRel hg2' hb)
 
 end Tempren
